@@ -26,6 +26,9 @@ from .util import SingleObserver
 
 DEFAULT_VALUE = 'DEFAULT'
 
+_SETCONF_NEEDS_QUOTES = ' \t\r\n"\\'
+_SETCONF_ESCAPES = {'\\': '\\\\', '"': '\\"', '\n': '\\n', '\r': '\\r', '\t': '\\t'}
+
 
 class TorProtocolError(RuntimeError):
     """
@@ -511,10 +514,14 @@ class TorControlProtocol(LineOnlyReceiver):
         strargs = [str(x) for x in args]
         keys = [strargs[i] for i in range(0, len(strargs), 2)]
         values = [strargs[i] for i in range(1, len(strargs), 2)]
+        if any('\r' in k or '\n' in k for k in keys):
+            return defer.fail(ValueError("Configuration keys may not contain line breaks."))
 
         def maybe_quote(s):
-            if ' ' in s:
-                return '"%s"' % s
+            # control-spec QuotedString: anything that would end or
+            # confuse an unquoted value is sent quoted, C-escaped
+            if any(c in s for c in _SETCONF_NEEDS_QUOTES):
+                return '"%s"' % ''.join(_SETCONF_ESCAPES.get(c, c) for c in s)
             return s
         values = [maybe_quote(v) for v in values]
         args = ' '.join(map(lambda x, y: '%s=%s' % (x, y), keys, values))
